@@ -699,7 +699,9 @@ def resolve(model: RefDir, op):
         u = _pick(model.uorder, r[0])
         if u is None:
             return None
-        return {'a': 'term_noise', 'unit': u, 'n': [10, 2, 3, 1000][r[1] % 4],
+        return {'a': 'term_noise', 'unit': u,
+                'unit2': _pick(model.uorder, r[3]),
+                'n': [10, 2, 3, 1000][r[1] % 4],
                 'e': [-1, -2, 1, -3][r[2] % 4], 'expect': 'accept'}
     raise ValueError(f"unknown intent {op}")
 
@@ -1122,7 +1124,15 @@ def perform(env: Env, act):
                        lambda: hash(Term([(n_, e_), (u, 2)])),
                        lambda: str(Term([(float(n_), e_), (u, 1)])),
                        lambda: Term([(u, 1)]) * n_ == Term([(n_, 1), (u, 1)]),
-                       lambda: Term([(n_, e_), (u, -1)]).normalized()):
+                       lambda: Term([(n_, e_), (u, -1)]).normalized(),
+                       # terms of two units rendered, hashed and compared
+                       # (what a report or a log line would do)
+                       lambda: str(Term([(u, 1), (env.units[act['unit2']],
+                                                  -1)])),
+                       lambda: str(Term([(u, 1), (env.units[act['unit2']],
+                                                  1)])),
+                       lambda: hash(Term([(env.units[act['unit2']], 2),
+                                          (u, -1)]))):
                 try:
                     fn()
                 except Exception:       # noqa: nothing is declared here
